@@ -1,11 +1,392 @@
 import Driver.Json
+import OomdModel.DropIn
 
-/-! Driver glue for engine `dropin` (stub: not built yet). -/
+/-! Driver glue for engine `h_dropin` (C13).
+
+`accepts`: the operational model (`OomdModel.DropIn.step` from the compiled engine) reproduces the
+implementation's per-operation results, `oomd.dropin.added` values, scripted-plugin call log of
+every tick and the hook fired for every probe cgroup.
+
+`holds`: the clauses of C13 evaluated on the implementation's observations against a *declarative*
+reference computed from the operation list (`Ref` below: the last effective operation per tag decides
+whether it is active; recency orders the active tags) - it never calls the model's `addDropInConfig` /
+`removeDropInConfig` / `compileDropIn`.  The reversibility clause compares two implementation traces
+(the history and its twin without the removed tag) and needs no reference at all. -/
 namespace Driver.Dropin
-open Lean
+open Lean OomdModel.Engine OomdModel.DropIn
+
+/-! ### scenario parsing -/
+
+structure PlugJ where
+  inst : Nat
+  bad : Bool
+
+def parsePlug (j : Json) : PlugJ :=
+  match j with
+  | Json.obj _ => { inst := jnat j "inst", bad := jbool j "fail_init" || jbool j "unknown" }
+  | _ => { inst := asNat j, bad := false }
+
+structure RsJ where
+  rid : Nat
+  groups : List (Nat × List PlugJ)
+  actions : List PlugJ
+  delay : String
+  hookTimeout : String
+  silence : String
+  perm : Perm
+
+def parseRsJ (j : Json) : RsJ :=
+  let d := jobj j "dropin"
+  { rid := jnat j "rid"
+    groups := (jarr j "groups").map fun g => (jnat g "gid", (jarr g "dets").map parsePlug)
+    actions := (jarr j "actions").map parsePlug
+    delay := jstr j "delay"
+    hookTimeout := jstr j "hook_timeout"
+    silence := jstr j "silence"
+    perm := { disable := jbool d "disable", dg := jbool d "dg", act := jbool d "act" } }
+
+def silenceOk (s : String) : Bool :=
+  s.isEmpty || ((s.trimAscii.toString.splitOn ",").all fun p =>
+    let q := p.trimAscii.toString
+    q == "engine" || q == "plugins")
+
+def secOk (s : String) : Bool := s.isEmpty || s.toNat?.isSome
+
+def RsJ.malformed (r : RsJ) : Bool := !(silenceOk r.silence && secOk r.delay && secOk r.hookTimeout)
+
+def RsJ.plugs (r : RsJ) : List PlugJ := r.groups.flatMap (·.2) ++ r.actions
+
+def RsJ.toIR (r : RsJ) : RsIR :=
+  { rid := r.rid
+    groups := r.groups.map fun g => { gid := g.1, dets := g.2.map (·.inst) }
+    actions := r.actions.map (·.inst)
+    delay := (if r.delay.isEmpty then 15 else r.delay.toNat?.getD 0) * NS
+    hookTimeout := (if r.hookTimeout.isEmpty then 5 else r.hookTimeout.toNat?.getD 0) * NS
+    perm := r.perm
+    malformed := r.malformed }
+
+structure HookJ where
+  hid : Nat
+  pats : List String
+  bad : Bool
+
+def parseHook (j : Json) : HookJ :=
+  { hid := jnat j "hid", pats := jstrs j "match", bad := jbool j "fail_init" || jbool j "unknown" }
+
+inductive OpJ
+  | add (tag : String) (rss : List RsJ) (hooks : List HookJ)
+  | remove (tag : String)
+
+def OpJ.tag : OpJ → String
+  | .add t _ _ => t
+  | .remove t => t
+
+def parseOp (j : Json) : OpJ :=
+  if jstr j "op" == "add" then .add (jstr j "tag") ((jarr j "rulesets").map parseRsJ) ((jarr j "hooks").map parseHook)
+  else .remove (jstr j "tag")
+
+structure TickJ where
+  gap : Nat
+  calls : List (Nat × Call)
+  ops : List OpJ
+
+def callOf (calls : List (Nat × Call)) (i : Nat) : Call := (calls.lookup i).getD {}
+
+def parseCall (j : Json) : Call :=
+  let a := asArr j
+  let r := match asNat (a.getD 0 Json.null) with | 1 => Ret.stop | 2 => Ret.async | _ => Ret.cont
+  let p := asInt (a.getD 2 Json.null)
+  { ret := r, adv := asNat (a.getD 1 Json.null), pause := if p < 0 then none else some (p.toNat * NS) }
+
+def parseTick (j : Json) : TickJ :=
+  let calls := match jobj j "calls" with
+    | Json.obj kvs => kvs.toList.map fun (k, v) => (k.toNat!, parseCall v)
+    | _ => []
+  { gap := jnat j "gap", calls := calls, ops := (jarr j "ops").map parseOp }
+
+structure Scn where
+  base : List RsJ
+  root : List RsJ
+  hooks : List HookJ
+  probes : List String
+  ticks : List TickJ
+
+def parseScn (sc : Json) (ticksKey : String := "ticks") : Scn :=
+  let base := (jarr sc "rulesets").map parseRsJ
+  { base := base
+    root := if jhas sc "root" then (jarr sc "root").map parseRsJ else base
+    hooks := (jarr sc "hooks").map parseHook
+    probes := jstrs sc "probes"
+    ticks := (jarr sc ticksKey).map parseTick }
+
+def Scn.allOps (s : Scn) : List OpJ := s.ticks.flatMap (·.ops)
+
+def Scn.allHooks (s : Scn) : List HookJ :=
+  s.hooks ++ s.allOps.flatMap fun o => match o with | .add _ _ hs => hs | _ => []
+
+def Scn.allRs (s : Scn) : List RsJ :=
+  s.base ++ s.root ++ s.allOps.flatMap fun o => match o with | .add _ rs _ => rs | _ => []
+
+def Scn.tagId (s : Scn) (t : String) : Nat := ((s.allOps.map (·.tag)).eraseDups.idxOf? t).getD 0
+
+/-! ### implementation trace -/
+
+inductive IEv
+  | p (inst : Nat)
+  | d (inst : Nat) (now : Nat)
+  | a (inst : Nat) (now : Nat) (rs grp : String) (uuid : Int) (deadline : Int) (inv : Bool)
+deriving BEq, Repr
+
+def parseIEv (j : Json) : IEv :=
+  let a := asArr j
+  match asStr (a.getD 0 Json.null) with
+  | "p" => IEv.p (asNat (a.getD 1 Json.null))
+  | "d" => IEv.d (asNat (a.getD 1 Json.null)) (asNat (a.getD 2 Json.null))
+  | _ => IEv.a (asNat (a.getD 1 Json.null)) (asNat (a.getD 2 Json.null)) (asStr (a.getD 3 Json.null))
+      (asStr (a.getD 4 Json.null)) (asInt (a.getD 5 Json.null)) (asInt (a.getD 6 Json.null)) (asBool (a.getD 7 Json.null))
+
+def evJ : IEv → Json
+  | IEv.p i => Json.arr #["p", i]
+  | IEv.d i n => Json.arr #["d", i, n]
+  | IEv.a i n r g u d inv => Json.arr #["a", i, n, r, g, Json.num u, Json.num d, inv]
+
+structure ITrace where
+  ticks : List (List IEv)
+  ops : List (String × Int)              -- result, stat; in order
+  probes : List (List (String × Int))    -- per tick: probe, fired hid or -1
+  finalStat : Int
+deriving BEq
+
+def parseTrace (tr : Json) : ITrace :=
+  { ticks := (jarr tr "ticks").map fun t => (asArr t).map parseIEv
+    ops := (jarr tr "ops").map fun o => let a := asArr o; (asStr (a.getD 2 Json.null), asInt (a.getD 3 Json.null))
+    probes := (jarr tr "probes").map fun t => (asArr t).map fun p =>
+      let a := asArr p; (asStr (a.getD 0 Json.null), asInt (a.getD 1 Json.null))
+    finalStat := jint tr "final_stat" }
+
+/-! ### the operational model on the scenario -/
+
+def renameUuids (ticks : List (List Ev)) : List (List IEv) :=
+  let step (acc : List Nat × List IEv) (e : Ev) : List Nat × List IEv :=
+    match e with
+    | Ev.prerun i => (acc.1, acc.2 ++ [IEv.p i])
+    | Ev.det i n => (acc.1, acc.2 ++ [IEv.d i n])
+    | Ev.act i n c inv =>
+      let (seen, idx) := match acc.1.idxOf? c.uuid with
+        | some k => (acc.1, k)
+        | none => (acc.1 ++ [c.uuid], acc.1.length)
+      (seen, acc.2 ++ [IEv.a i n s!"r{c.ruleset}" s!"g{c.group}" idx c.deadline inv])
+  let rec go (seen : List Nat) : List (List Ev) → List (List IEv)
+    | [] => []
+    | t :: ts =>
+      let r := t.foldl step (seen, [])
+      r.2 :: go r.1 ts
+  go [] ticks
+
+def resStr : OpRes → String
+  | .compileFailed => "compile-failed"
+  | .added => "added"
+  | .addFailed => "add-failed"
+  | .removed => "removed"
+
+def runModel (s : Scn) (inv : Bool) : Option ITrace :=
+  let badP := (s.allRs.flatMap (·.plugs)).filter (·.bad) |>.map (·.inst)
+  let badH := s.allHooks.filter (·.bad) |>.map (·.hid)
+  let reg : Reg := { badPlugin := fun i => badP.contains i, badHook := fun h => badH.contains h }
+  let env : Env := { reg := reg, root := { rulesets := s.root.map (·.toIR), hooks := [] }, inv := inv }
+  let canRun (probe : String) (hid : Nat) : Bool :=
+    match s.allHooks.find? (·.hid == hid) with
+    | some h => h.pats.contains probe
+    | none => false
+  match compile reg { rulesets := s.base.map (·.toIR), hooks := s.hooks.map (·.hid) } with
+  | none => none
+  | some eng =>
+    let toOp (o : OpJ) : Op := match o with
+      | .add t rs hs => Op.add (s.tagId t) { rulesets := rs.map (·.toIR), hooks := hs.map (·.hid) }
+      | .remove t => Op.remove (s.tagId t)
+    let rec goOps (w : OomdModel.DropIn.World) (acc : List (String × Int)) : List OpJ → OomdModel.DropIn.World × List (String × Int)
+      | [] => (w, acc)
+      | o :: os =>
+        let r := step env w (toOp o)
+        match r.2 with
+        | Out.op res st => goOps r.1 (acc ++ [(resStr res, if res == OpRes.compileFailed then -1 else st)]) os
+        | _ => goOps r.1 acc os
+    let rec go (w : OomdModel.DropIn.World) (tk : List (List Ev)) (ops : List (String × Int)) (pr : List (List (String × Int))) :
+        List TickJ → ITrace
+      | [] => { ticks := renameUuids tk, ops := ops, probes := pr, finalStat := w.eng.added }
+      | t :: ts =>
+        let (w1, ops1) := goOps w ops t.ops
+        let r := step env w1 (Op.tick { gap := t.gap, sc := callOf t.calls })
+        let evs := match r.2 with | Out.tick e => e | _ => []
+        let p := s.probes.map fun pb => (pb, match firePrekillHook r.1.eng (canRun pb) with | some h => Int.ofNat h | none => -1)
+        go r.1 (tk ++ [evs]) ops1 (pr ++ [p]) ts
+    some (go { eng := eng, now := 1000 * NS, ctr := 0 } [] [] [] s.ticks)
+
+/-! ### declarative reference (property clauses) -/
+
+namespace Ref
+
+/-- the parts a ruleset contributes to the call log -/
+structure Parts where
+  dets : List Nat
+  acts : List Nat
+deriving BEq, Repr
+
+def partsOf (r : RsJ) : Parts := { dets := r.groups.flatMap fun g => g.2.map (·.inst), acts := r.actions.map (·.inst) }
+
+/-- a base-IR ruleset can be instantiated -/
+def baseOk (r : RsJ) : Bool :=
+  !r.malformed && !r.groups.isEmpty && !r.actions.isEmpty && r.groups.all (fun g => !g.2.isEmpty) && r.plugs.all (!·.bad)
+
+/-- C13 "refused as a whole if it targets an unknown ruleset or overrides a part the base did not open
+up" (plus: a plugin / hook of the drop-in cannot be instantiated, a malformed field) -/
+def compiles (root : List RsJ) (rss : List RsJ) (hooks : List HookJ) : Bool :=
+  rss.all (fun d =>
+    match root.find? (·.rid == d.rid) with
+    | none => false
+    | some b =>
+      baseOk b && !d.malformed && d.groups.all (fun g => !g.2.isEmpty) && d.plugs.all (!·.bad) &&
+      (d.groups.isEmpty || b.perm.dg) && (d.actions.isEmpty || b.perm.act)) &&
+  hooks.all (!·.bad)
+
+/-- effect of an operation on the engine: `none` = no effect at all; `some (tag, none)` = tag absent
+afterwards; `some (tag, some content)` = tag present with this content, as the newest -/
+def effect (s : Scn) (o : OpJ) : Option (String × Option (List RsJ × List HookJ)) × String :=
+  match o with
+  | .remove t => (some (t, none), "removed")
+  | .add t rss hooks =>
+    if !compiles s.root rss hooks then (none, "compile-failed")
+    else if rss.all fun d => s.base.any (·.rid == d.rid) then (some (t, some (rss, hooks)), "added")
+    else (some (t, none), "add-failed")
+
+/-- active drop-ins, newest first: scan the history backwards; the last effective operation on a tag
+decides -/
+def active (s : Scn) : List OpJ → List String → List (String × List RsJ × List HookJ)
+  | [], _ => []
+  | o :: earlier, seen =>
+    match (effect s o).1 with
+    | none => active s earlier seen
+    | some (t, c) =>
+      if seen.contains t then active s earlier seen
+      else match c with
+        | none => active s earlier (t :: seen)
+        | some x => (t, x) :: active s earlier (t :: seen)
+
+def activeAfter (s : Scn) (ops : List OpJ) := active s ops.reverse []
+
+/-- expected rulesets of one tick, in evaluation order; `force` overrides the enablement of the base
+rulesets (used only to classify a mismatch) -/
+def orderWith (s : Scn) (act : List (String × List RsJ × List HookJ)) (force : Option (List Bool)) : List Parts :=
+  -- newest first; inside one drop-in file later rulesets were added later
+  let flat : List RsJ := act.flatMap fun a => a.2.1.reverse
+  let idxs := List.range s.base.length
+  (idxs.zip s.base).flatMap fun (i, b) =>
+    let first := (s.base.findIdx? (·.rid == b.rid)) == some i
+    let mine := if first then flat.filter (·.rid == b.rid) else []
+    let bp := partsOf b
+    let ds := mine.map fun d =>
+      let dp := partsOf d
+      { dets := if d.groups.isEmpty then bp.dets else dp.dets, acts := if d.actions.isEmpty then bp.acts else dp.acts : Parts }
+    let on := match force with
+      | some m => m.getD i true
+      | none => !(b.perm.disable && !mine.isEmpty)
+    ds ++ (if on then [bp] else [])
+
+def order (s : Scn) (act : List (String × List RsJ × List HookJ)) : List Parts := orderWith s act none
+
+def masks : Nat → List (List Bool)
+  | 0 => [[]]
+  | n + 1 => (masks n).flatMap fun m => [true :: m, false :: m]
+
+def count (s : Scn) (act : List (String × List RsJ × List HookJ)) : Int :=
+  Int.ofNat ((act.flatMap fun a => a.2.1).filter fun d => s.base.any (·.rid == d.rid)).length
+
+def hookPriority (s : Scn) (act : List (String × List RsJ × List HookJ)) : List HookJ :=
+  (act.flatMap fun a => a.2.2) ++ s.hooks
+
+def fired (s : Scn) (act : List (String × List RsJ × List HookJ)) (probe : String) : Int :=
+  match (hookPriority s act).find? (·.pats.contains probe) with
+  | some h => Int.ofNat h.hid
+  | none => -1
+
+end Ref
+
+def detSeq (evs : List IEv) : List Nat := evs.filterMap fun e => match e with | IEv.d i _ => some i | _ => none
+def preSeq (evs : List IEv) : List Nat := evs.filterMap fun e => match e with | IEv.p i => some i | _ => none
+
+/-- clauses on the implementation trace -/
+def check (s : Scn) (t : ITrace) : List String := Id.run do
+  let mut v : List String := []
+  let mut done : List OpJ := []
+  let mut opRes := t.ops
+  let mut lastOpFailed := false
+  let mut prevOk := true
+  for (tk, (evs, pr)) in s.ticks.zip (t.ticks.zip t.probes) do
+    lastOpFailed := false
+    for o in tk.ops do
+      done := done ++ [o]
+      let act := Ref.activeAfter s done
+      let exp := (Ref.effect s o).2
+      match opRes with
+      | [] => v := v ++ ["trace.missing_ops"]
+      | (res, stat) :: rest =>
+        opRes := rest
+        if res != exp then
+          v := v ++ [if exp == "added" then "C13.accepted_when_permitted" else "C13.refused_as_whole"]
+        if exp == "compile-failed" || exp == "add-failed" then lastOpFailed := true
+        -- a drop-in that does not compile never reaches the engine: no statistic is reported for it
+        if res != "compile-failed" && stat != Ref.count s act then
+          v := v ++ [if exp == "add-failed" then "C13.failed_add_leaves_nothing" else "C13.added_count"]
+    let act := Ref.activeAfter s done
+    let exp := Ref.order s act
+    if detSeq evs != exp.flatMap (·.dets) then
+      if (Ref.masks s.base.length).any fun m => detSeq evs == (Ref.orderWith s act (some m)).flatMap (·.dets) then
+        v := v ++ ["C13.enabled_iff"]
+      else if lastOpFailed && prevOk then v := v ++ ["C13.failed_add_leaves_nothing"]
+      else v := v ++ ["C13.lifo_before_base"]
+      prevOk := false
+    else if preSeq evs != exp.flatMap (fun p => p.dets ++ p.acts) then
+      v := v ++ ["C13.scoped_replacement"]
+    for (pb, f) in pr do
+      if f != Ref.fired s act pb then v := v ++ ["C13.hook_priority"]
+  if t.ticks.length != s.ticks.length then v := v ++ ["trace.missing_ticks"]
+  return v.eraseDups
+
+/-- reversibility, implementation against implementation: from tick `k` on (the tick whose operations
+remove the tag for good) the history and its twin without any operation on that tag must show the
+same rulesets in the same order (detector and prerun sequences), the same hook for every probe and
+the same final `oomd.dropin.added` -/
+def checkTwin (k : Nat) (a b : ITrace) : List String :=
+  let sameFrom (x y : List (List IEv)) (f : List IEv → List Nat) := (x.drop k).map f == (y.drop k).map f
+  (if sameFrom a.ticks b.ticks detSeq && sameFrom a.ticks b.ticks preSeq then [] else ["C13.remove_reversible.order"]) ++
+  (if a.probes.drop k == b.probes.drop k then [] else ["C13.remove_reversible.hooks"]) ++
+  (if a.finalStat == b.finalStat then [] else ["C13.remove_reversible.count"])
 
 def handle (j : Json) : Json :=
-  Json.mkObj [("id", Json.str (jstr (jobj j "s") "id")), ("error", Json.str "engine dropin not implemented")]
+  let sc := jobj j "s"
+  let tr := jobj j "t"
+  let id := jstr sc "id"
+  let s := parseScn sc
+  let impl := parseTrace tr
+  let inv := !(jbool sc "model_unfixed")
+  match runModel s inv with
+  | none => verdict id (jstr tr "outcome" == "compile-failed") true [] ""
+  | some m =>
+    let twinOk : Bool × List String :=
+      if jhas sc "twin_ticks" then
+        let s2 := parseScn sc "twin_ticks"
+        let impl2 := parseTrace (jobj tr "twin")
+        let acc2 := match runModel s2 inv with | some m2 => m2 == impl2 | none => false
+        (acc2, check s2 impl2 ++ checkTwin (jnat sc "twin_from") impl impl2)
+      else (true, [])
+    let accepts := m == impl && twinOk.1
+    let viol := (check s impl ++ twinOk.2).eraseDups
+    let firstDiff := ((m.ticks.zip impl.ticks).findIdx? fun (a, b) => a != b).getD (min m.ticks.length impl.ticks.length)
+    verdict id accepts viol.isEmpty viol ""
+      [("first_diff_tick", firstDiff),
+       ("model_tick", Json.arr ((m.ticks.getD firstDiff []).map evJ).toArray),
+       ("model_ops", Json.arr (m.ops.map fun (r, st) => Json.arr #[Json.str r, Json.num st]).toArray),
+       ("model_probes", Json.arr (m.probes.map fun t => Json.arr (t.map fun (p, f) => Json.arr #[Json.str p, Json.num f]).toArray).toArray)]
 
 end Driver.Dropin
 
